@@ -284,7 +284,7 @@ def c13_history(mi: int, a: int, b_: int, c: int, d: int, e: int, f: int) -> boo
                 ex = Fraction(1, meter[1]) if meter[1] else Fraction(1, 4)
                 got = bar + NoteContainer("C")
             else:
-                fv, ex = HV[op]
+                fv, ex = HV[P["vals"][op]] if P.get("vals") else HV[op]
                 got = bar.place_notes("C", fv) if op % 2 else bar.place_rest(fv)
             tot = sum((m[1] for m in model), Fraction(0))
             ok = cap is None or tot + ex <= cap
@@ -377,6 +377,9 @@ def claims(tier):
             cl.append(Claim("fill[v%d]" % vi0, c13_fill, params={"vi0": vi0, "subset": True}, group="c13_fill", pre=[lambda vi, wi, a, mi: vi == P["vi0"] and 0 <= wi < len(FILL_W) and 0 <= a <= 2 and 0 <= mi < nmet], timeout=3000, per_path=120, bounds="fills to capacity (real doubles): 0..2 x value %d then one of %d filler values until full x %d meters" % (vi0, len(FILL_W), nmet)))
     depth = 3 if q else 4
     nv = 6 if q else 10
+    for mi in (0, 1):
+        for first in range(5):
+            cl.append(Claim("history_remove[m=%s,first=%d]" % ("%d/%d" % HM[mi], first), c13_history, params={"nv": 3, "depth": 5 if q else 6, "mi": mi, "first": first, "vals": [0, 1, 6]}, group="c13_history", pre=[lambda mi, a, b_, c, d, e, f: mi == P["mi"] and a == P["first"] and (f == 0 or P["depth"] >= 6)], timeout=1200 if q else 3000, bounds="all operation sequences of length %d over {place/rest a quarter, an eighth, a half; remove-last; '+'} starting with op %d in meter %s: refused placements and repeated removals, real doubles" % (5 if q else 6, first, "%d/%d" % HM[mi])))
     for mi in range(len(HM)):
         for first in range(nv + 2):
             cl.append(Claim("history[m=%s,first=%d]" % ("%d/%d" % HM[mi], first), c13_history, params={"nv": nv, "depth": depth, "mi": mi, "first": first}, group="c13_history", pre=[lambda mi, a, b_, c, d, e, f: mi == P["mi"] and a == P["first"] and e == 0 and f == 0 and (d == 0 or P["depth"] >= 4)], timeout=1200 if q else 3000, bounds="all operation sequences of length %d over {place/rest one of %d values, remove-last, '+'} starting with op %d in meter %s, real doubles" % (depth, nv, first, HM[mi])))
